@@ -113,3 +113,45 @@ Proof.
   rewrite !N.mod_small by assumption.
   rewrite (IH _ Hr). reflexivity.
 Qed.
+
+(* the same without knowing beforehand that the result registers are writable: whenever libccp
+   accepts the bytes, what it holds is the direct translation *)
+Theorem read_ser_instr_inv i bs di : ser_instr i = Ok bs -> read_instruction bs = inr di -> di = dinstr_of i.
+Proof.
+  unfold ser_instr. intros H Hr.
+  apply bind_ok_inv in H. destruct H as (o & Ho & H).
+  apply bind_ok_inv in H. destruct H as (a & Ha & H).
+  apply bind_ok_inv in H. destruct H as (b & Hb & H).
+  apply bind_ok_inv in H. destruct H as (c & Hc & H). inversion H; subst bs; clear H.
+  apply ser_reg_img_inv in Ha. destruct Ha as (ca & va & Ra & ->).
+  apply ser_reg_img_inv in Hb. destruct Hb as (cb & vb & Rb & ->).
+  apply ser_reg_img_inv in Hc. destruct Hc as (cc & vc & Rc & ->).
+  destruct (ser_op_lt _ _ Ho) as [Hlt Hop].
+  destruct (enc4 va) as (a0 & a1 & a2 & a3 & Ea). destruct (enc4 vb) as (b0 & b1 & b2 & b3 & Eb).
+  destruct (enc4 vc) as (c0 & c1 & c2 & c3 & Ec).
+  rewrite Ea, Eb, Ec in Hr. cbn [app] in Hr.
+  unfold read_instruction in Hr. cbn [nth] in Hr.
+  destruct (15 <=? o) eqn:E15; [discriminate Hr|].
+  destruct ((ca =? T_IMM) || (ca =? T_PRIM)); [discriminate Hr|].
+  unfold le32, le_at, sub in Hr. cbn [skipn firstn Nat.sub Nat.add] in Hr.
+  rewrite (dec4 _ _ _ _ _ Ea) in Hr. destruct (reg_code_dreg _ _ _ Ra) as [Ha' _]. rewrite Ha' in Hr. cbv iota beta in Hr.
+  rewrite (dec4 _ _ _ _ _ Eb) in Hr. destruct (reg_code_dreg _ _ _ Rb) as [Hb' _]. rewrite Hb' in Hr. cbv iota beta in Hr.
+  rewrite (dec4 _ _ _ _ _ Ec) in Hr. destruct (reg_code_dreg _ _ _ Rc) as [Hc' _]. rewrite Hc' in Hr. cbv iota beta in Hr.
+  inversion Hr. unfold dinstr_of. rewrite Hop. reflexivity.
+Qed.
+
+Theorem read_ser_instrs_inv is : forall bs tail dis, ser_instrs is = Ok bs ->
+  read_instrs (length is) (bs ++ tail) = inr dis -> dis = map dinstr_of is.
+Proof.
+  induction is as [|i r IH]; intros bs tail dis H Hr; cbn [ser_instrs] in H.
+  - inversion H; subst. cbn in Hr. inversion Hr. reflexivity.
+  - apply bind_ok_inv in H. destruct H as (a & Ha & H).
+    apply bind_ok_inv in H. destruct H as (b & Hb & H). inversion H; subst bs; clear H.
+    pose proof (ser_instr_length _ _ Ha) as La.
+    cbn [length read_instrs map] in *. rewrite <- app_assoc in Hr.
+    rewrite firstn_app, La, Nat.sub_diag, firstn_all2 in Hr by lia. cbn [firstn] in Hr. rewrite app_nil_r in Hr.
+    destruct (read_instruction a) as [e|di] eqn:Ei; [discriminate Hr|].
+    rewrite skipn_app, La, Nat.sub_diag, skipn_all2 in Hr by lia. cbn [skipn app] in Hr.
+    destruct (read_instrs (length r) (b ++ tail)) as [e|dr] eqn:Er; [discriminate Hr|].
+    inversion Hr; subst dis. f_equal; [eapply read_ser_instr_inv; eauto|eapply IH; eauto].
+Qed.
